@@ -103,3 +103,90 @@ for _o in ('add', 'sub', 'mul', 'div'):
 
 def families():
     return sorted(set(o.family for o in OPS.values()))
+
+
+# ---------------------------------------------------------------- linear algebra and factorizations
+def _spd_or_general(rng, n, kind):
+    import numpy.linalg as la
+    if kind == 'spd':
+        L = numpy.tril(numpy.array([[rng.randint(-4, 4) / 4 for _ in range(n)] for _ in range(n)]), -1) + numpy.diag([rng.choice([1, 1.5, 2]) for _ in range(n)])
+        return L @ L.T
+    if kind == 'sym':
+        S = numpy.zeros((n, n))
+        for i in range(n):
+            for j in range(i + 1, n):
+                S[i, j] = rng.randint(-3, 3) / 4; S[j, i] = -S[i, j]
+        Q = la.solve(numpy.eye(n) + S, numpy.eye(n) - S)
+        lam = sorted(rng.sample([-4, -2.5, -1, 0.5, 2, 3.5, 5], n))
+        A = Q @ numpy.diag(lam) @ Q.T
+        return 0.5 * (A + A.T)
+    A = numpy.array([[rng.randint(-4, 4) / 4 for _ in range(n)] for _ in range(n)]) + numpy.diag([rng.choice([3, 4, -3]) for _ in range(n)])
+    return A
+
+
+def _gen_linalg(name, kind, nin=1):
+    def gen(rng, Dmax=6, Pmax=3):
+        D = rng.randint(2, max(2, min(Dmax, 5))); P = rng.randint(1, Pmax)
+        n = rng.randint(2, 3)
+        A = _rand_utpm(rng, D, P, (n, n))
+        if kind in ('spd', 'sym'):
+            A = 0.5 * (A + A.transpose((0, 1, 3, 2)))
+        for p in range(P):
+            A[0, p] = _spd_or_general(rng, n, kind)
+        ins = [A.tolist()]
+        if nin == 2:
+            ins.append(_rand_utpm(rng, D, P, (n, rng.randint(1, 2))).tolist())
+        return dict(op='linalg:' + name, inputs=ins)
+    return gen
+
+
+def _run_linalg(name):
+    def run(algopy, case, inputs):
+        A = algopy.UTPM(_as(inputs[0]))
+        if name == 'dot':
+            out = [algopy.dot(A, A)]
+        elif name == 'solve':
+            out = [algopy.solve(A, algopy.UTPM(_as(inputs[1])))]
+        elif name in ('inv', 'det', 'logdet', 'trace', 'cholesky'):
+            out = [getattr(algopy, name)(A)]
+        elif name in ('qr', 'eigh', 'lu'):
+            out = list(getattr(algopy, name)(A))
+        else:
+            raise ValueError(name)
+        return [numpy.asarray(o.data) for o in out]
+    return run
+
+
+def _ref0_linalg(name):
+    import scipy.linalg
+
+    def ref0(case, ins0):
+        A = ins0[0]
+        if name == 'dot':
+            return [numpy.dot(A, A)]
+        if name == 'solve':
+            return [numpy.linalg.solve(A, ins0[1])]
+        if name == 'inv':
+            return [numpy.linalg.inv(A)]
+        if name == 'det':
+            return [numpy.linalg.det(A)]
+        if name == 'logdet':
+            return [numpy.linalg.slogdet(A)[1]]
+        if name == 'trace':
+            return [numpy.trace(A)]
+        if name == 'cholesky':
+            return [numpy.linalg.cholesky(A)]
+        if name == 'qr':
+            return list(numpy.linalg.qr(A))
+        if name == 'eigh':
+            return list(numpy.linalg.eigh(A))
+        if name == 'lu':
+            return list(scipy.linalg.lu(A))
+    return ref0
+
+
+for _name, _kind, _nin in [('dot', 'general', 1), ('inv', 'general', 1), ('solve', 'general', 2), ('det', 'general', 1), ('logdet', 'general', 1),
+                           ('trace', 'general', 1), ('cholesky', 'spd', 1), ('qr', 'general', 1), ('lu', 'general', 1), ('eigh', 'sym', 1)]:
+    _op = Op('linalg:' + _name, _gen_linalg(_name, _kind, _nin), _run_linalg(_name), 'linalg')
+    _op.ref0 = _ref0_linalg(_name)
+    reg(_op)
